@@ -49,7 +49,11 @@ static void cstl_vector_set_capacity(
      * element at the end to use as scratch space for exchanging
      * elements during sort and reverse operations
      */
-    e = realloc(v->elem.base, (sz + 1) * v->elem.size);
+    e = NULL;
+    if (v->elem.size > 0 && sz < SIZE_MAX / v->elem.size) {
+        /* the byte count, (sz + 1) * size, is representable */
+        e = realloc(v->elem.base, (sz + 1) * v->elem.size);
+    }
     if (e != NULL) {
         v->elem.base = e;
         v->cap = sz;
